@@ -28,15 +28,15 @@ def itemTail (opt : Bool) (a s : Value) : Except Err Value :=
     | .error _ => .error .index
 
 section
-variable {rec : VmCtx → Chunk → State → RunRes} {venv : Vm.Env} {vm : VmCtx} {c : Chunk}
+variable {venv : Vm.Env} {vm : VmCtx} {c : Chunk}
 
 theorem subscript_sim {pc : Nat} {opt : Bool}
     (h : EntryAt c pc (sp (if opt then .binarySubscriptOpt else .binarySubscript)))
     (ht : reportTargetOk venv vm c = true) (st : State) (a : Value) (ra : SpanRange)
     (s : Value) (rs : SpanRange) (hra : SpanOk c ra) (hrs : SpanOk c rs) :
     match itemTail opt a s with
-    | .ok v => ∃ rg, Run rec venv vm c pc ((st.push a ra).push s rs) [pc] (pc + 1) (st.push v rg) ∧ SpanOk c rg
-    | .error err => ∃ re, Fails rec venv vm c pc ((st.push a ra).push s rs) [pc] re ∧ errMatch err re = true := by
+    | .ok v => ∃ rg, Run venv vm c pc ((st.push a ra).push s rs) [pc] (pc + 1) (st.push v rg) ∧ SpanOk c rg
+    | .error err => ∃ re, Fails venv vm c pc ((st.push a ra).push s rs) [pc] re ∧ errMatch err re = true := by
   have hown : SpanOk c (pc, pc) := by cases opt <;> exact spanOk_own h
   obtain ⟨vi, sps, hv, hc, _⟩ := h
   have hv' : vi = .binarySubscript opt := by
@@ -46,11 +46,12 @@ theorem subscript_sim {pc : Nat} {opt : Bool}
   unfold itemTail
   by_cases h1 : (opt && (a.isUndef || a.isNone)) = true
   · rw [if_pos h1]
-    exact ⟨_, Run.one hc (by simp only [step, stepSubscript, State.push, h1, if_true]), hown⟩
+    exact ⟨_, Run.one hc (by intro rec; simp only [step, stepSubscript, State.push, h1, if_true]), hown⟩
   · rw [if_neg h1]
     by_cases h2 : a.isUndef = true
     · rw [if_pos h2]
       refine ⟨.index, Fails.here hc ?_, rfl⟩
+      intro rec
       simp only [step, stepSubscript, State.push]
       rw [if_neg h1, if_pos h2]
       exact renderingError_eq ht hra _
@@ -58,6 +59,7 @@ theorem subscript_sim {pc : Nat} {opt : Bool}
       by_cases h3 : s.isUndef = true
       · rw [if_pos h3]
         refine ⟨.index, Fails.here hc ?_, rfl⟩
+        intro rec
         simp only [step, stepSubscript, State.push]
         rw [if_neg h1, if_neg h2, if_pos h3]
         exact renderingError_eq ht hrs _
@@ -65,10 +67,12 @@ theorem subscript_sim {pc : Nat} {opt : Bool}
         cases hg : a.getItem s with
         | ok v =>
           exact ⟨_, Run.one hc (by
+            intro rec
             simp only [step, stepSubscript, State.push]
             rw [if_neg h1, if_neg h2, if_neg h3, hg]), hra.combine hrs⟩
         | error e =>
           refine ⟨.index, Fails.here hc ?_, rfl⟩
+          intro rec
           simp only [step, stepSubscript, State.push]
           rw [if_neg h1, if_neg h2, if_neg h3, hg]
           exact renderingError_eq ht hrs _
@@ -145,7 +149,7 @@ theorem BoundRel.read {c : Chunk} {v w : Value} {rg : SpanRange} (h : BoundRel c
   · rw [h1]; exact h2
 
 section
-variable {rec : VmCtx → Chunk → State → RunRes} {venv : Vm.Env} {vm : VmCtx} {c : Chunk}
+variable {venv : Vm.Env} {vm : VmCtx} {c : Chunk}
 
 theorem slice_sim {pc : Nat} {opt : Bool}
     (h : EntryAt c pc (sp (if opt then .sliceOpt else .slice)))
@@ -154,9 +158,9 @@ theorem slice_sim {pc : Nat} {opt : Bool}
     (r3 : SpanRange) (hra : SpanOk c ra) (h1 : BoundRel c v1 w1 r1) (h2 : BoundRel c v2 w2 r2)
     (h3 : BoundRel c v3 w3 r3) :
     match sliceTail opt a v1 v2 v3 with
-    | .ok v => ∃ rg, Run rec venv vm c pc ((((st.push a ra).push w1 r1).push w2 r2).push w3 r3) [pc]
+    | .ok v => ∃ rg, Run venv vm c pc ((((st.push a ra).push w1 r1).push w2 r2).push w3 r3) [pc]
         (pc + 1) (st.push v rg) ∧ SpanOk c rg
-    | .error err => ∃ re, Fails rec venv vm c pc ((((st.push a ra).push w1 r1).push w2 r2).push w3 r3)
+    | .error err => ∃ re, Fails venv vm c pc ((((st.push a ra).push w1 r1).push w2 r2).push w3 r3)
         [pc] re ∧ errMatch err re = true := by
   have hown : SpanOk c (pc, pc) := by cases opt <;> exact spanOk_own h
   obtain ⟨vi, sps, hv, hc, _⟩ := h
@@ -167,11 +171,12 @@ theorem slice_sim {pc : Nat} {opt : Bool}
   unfold sliceTail
   by_cases c1 : (opt && (a.isUndef || a.isNone)) = true
   · rw [if_pos c1]
-    exact ⟨_, Run.one hc (by simp only [step, stepSlice, State.push, c1, if_true]), hown⟩
+    exact ⟨_, Run.one hc (by intro rec; simp only [step, stepSlice, State.push, c1, if_true]), hown⟩
   · rw [if_neg c1]
     by_cases c2 : a.isUndef = true
     · rw [if_pos c2]
       refine ⟨.slice, Fails.here hc ?_, rfl⟩
+      intro rec
       simp only [step, stepSlice, State.push]
       rw [if_neg c1, if_pos c2]
       exact renderingError_eq ht hra _
@@ -182,6 +187,7 @@ theorem slice_sim {pc : Nat} {opt : Bool}
         rw [hb1] at e1
         obtain ⟨e1a, e1b, e1c⟩ := e1
         refine ⟨.slice, Fails.here hc ?_, by rcases e1c with rfl | rfl <;> rfl⟩
+        intro rec
         simp only [step, stepSlice, State.push]
         rw [if_neg c1, if_neg c2]
         simp only [e1a]
@@ -194,6 +200,7 @@ theorem slice_sim {pc : Nat} {opt : Bool}
           rw [hb2] at e2
           obtain ⟨e2a, e2b, e2c⟩ := e2
           refine ⟨.slice, Fails.here hc ?_, by rcases e2c with rfl | rfl <;> rfl⟩
+          intro rec
           simp only [step, stepSlice, State.push]
           rw [if_neg c1, if_neg c2]
           simp only [e1, e2a]
@@ -206,6 +213,7 @@ theorem slice_sim {pc : Nat} {opt : Bool}
             rw [hb3] at e3
             obtain ⟨e3a, e3b, e3c⟩ := e3
             refine ⟨.slice, Fails.here hc ?_, by rcases e3c with rfl | rfl <;> rfl⟩
+            intro rec
             simp only [step, stepSlice, State.push]
             rw [if_neg c1, if_neg c2]
             simp only [e1, e2, e3a]
@@ -216,12 +224,14 @@ theorem slice_sim {pc : Nat} {opt : Bool}
             | ok v =>
               simp only [hs]
               exact ⟨_, Run.one hc (by
+                intro rec
                 simp only [step, stepSlice, State.push]
                 rw [if_neg c1, if_neg c2]
                 simp only [e1, e2, e3, hs]), hra⟩
             | error x =>
               simp only [hs]
               refine ⟨.slice, Fails.here hc ?_, rfl⟩
+              intro rec
               simp only [step, stepSlice, State.push]
               rw [if_neg c1, if_neg c2]
               simp only [e1, e2, e3, hs]
